@@ -343,14 +343,16 @@ def fresh_bool(name):
   return SymBool(t)
 
 
-def choose(name, n):
-  """symbolic choice of an index in range(n), concretised by forking (a Python int results)."""
+def choose(name, n, inner=False):
+  """symbolic choice of an index in range(n), concretised by forking (a Python int results).
+  inner=True: called from inside scales code (a stub), never a shard point."""
   E = _E()
   if n <= 1: return 0
   v = fresh_int(name, 0, n - 1)
   if E.mode == 'concrete': return v
   for i in range(n - 1):
-    if v == i: return i
+    c = lift_bool(v == i)
+    if (E.decide(c) if inner else E.hdecide(c)): return i
   return n - 1
 
 
